@@ -60,12 +60,20 @@ class Watch:
         self.recursion_error = False
         self.tripped = None
 
+    @staticmethod
+    def _in_impl(frame):
+        # only frames of the implementation are interrupted; raising inside asyncio's or
+        # the harness's own frames would take the event loop down with it
+        return '/bumble/' in frame.f_code.co_filename
+
     def _local(self, frame, event, arg):
         if event == 'line':
             self.steps += 1
-            if self.steps > self.step_budget and self.tripped is None:
-                self.tripped = 'hang'
-                raise Abort('hang')
+            if self.steps > self.step_budget:
+                if self.tripped is None:
+                    self.tripped = 'hang'
+                if self._in_impl(frame):
+                    raise Abort(self.tripped)
         elif event == 'return':
             self.depth -= 1
         elif event == 'exception':
@@ -78,10 +86,12 @@ class Watch:
             self.depth += 1
             if self.depth > self.max_depth:
                 self.max_depth = self.depth
-            if self.depth > self.depth_budget and self.tripped is None:
-                self.tripped = 'recursion'
-                self.depth -= 1
-                raise Abort('recursion')
+            if self.depth > self.depth_budget:
+                if self.tripped is None:
+                    self.tripped = 'recursion'
+                if self._in_impl(frame):
+                    self.depth -= 1
+                    raise Abort(self.tripped)
             return self._local
         return None
 
@@ -135,12 +145,14 @@ def _ag_config():
         supported_audio_codecs=[hfp.AudioCodec.CVSD, hfp.AudioCodec.MSBC])
 
 
-async def idle(max_rounds=IDLE_ROUNDS):
+async def idle(max_rounds=IDLE_ROUNDS, stop=None):
     """Run the event loop until no callback is ready (timers are never waited for).
-    Returns False when it is still busy after max_rounds rounds."""
+    Returns False when it is still busy after max_rounds rounds (or stop() became true)."""
     loop = asyncio.get_running_loop()
     quiet = 0
     for _ in range(max_rounds):
+        if stop is not None and stop():
+            return False
         await asyncio.sleep(0)
         if not loop._ready:           # noqa: SLF001 (CPython BaseEventLoop ready queue)
             quiet += 1
@@ -1150,8 +1162,8 @@ async def run_case(w, case):
             if verdict:
                 break
             try:
-                if not await idle():
-                    verdict = 'hang'
+                if not await idle(stop=lambda: wt.tripped):
+                    verdict = wt.tripped or 'hang'
                     break
             except Abort as a:              # the budget ran out while the loop was being pumped
                 verdict = a.kind
@@ -1231,9 +1243,16 @@ def guarded(nbytes, fn, *args):
     w = Watch(20000 + 400 * nbytes, 400)
     try:
         with w:
-            return fn(*args)
+            result = fn(*args)
     except Abort as a:
         raise RealHang(a.kind)
+    except Exception:
+        if w.tripped:
+            raise RealHang(w.tripped)
+        raise
+    if w.tripped:
+        raise RealHang(w.tripped)
+    return result
 
 
 def _hang_violation(ctx, what, b, kind):
